@@ -38,12 +38,15 @@ fn rp_next() -> [u8; 8]
         let mut out = [0u8; 8];
         if i < REPLAY_N
         {
-            let mut k = 0;
-            while k < 8
-            {
-                out[k] = REPLAY_FLAT[i * 8 + k];
-                k += 1;
-            }
+            // unrolled: harnesses run with small unwinding bounds
+            out[0] = REPLAY_FLAT[i * 8];
+            out[1] = REPLAY_FLAT[i * 8 + 1];
+            out[2] = REPLAY_FLAT[i * 8 + 2];
+            out[3] = REPLAY_FLAT[i * 8 + 3];
+            out[4] = REPLAY_FLAT[i * 8 + 4];
+            out[5] = REPLAY_FLAT[i * 8 + 5];
+            out[6] = REPLAY_FLAT[i * 8 + 6];
+            out[7] = REPLAY_FLAT[i * 8 + 7];
         }
         out
     }
@@ -403,7 +406,7 @@ fn u_nextid()
             // the value u32::MAX doubles as "range exhausted": the insert pass hands out nothing from it
             assert!((next as u64) > (m as u64) || (m == u32::MAX && next == u32::MAX),
                 "C01: next id is above every existing id (or the range is exhausted)");
-            assert!(miss == missing, "C05: first pass counts exactly the statements lacking a reference");
+            assert!(miss == missing, "C05/C06: first pass counts exactly the statements lacking a reference");
         },
         None =>
         {
@@ -432,10 +435,10 @@ fn u_count()
     assert!(r1.is_some() && r2.is_some());
     let n1 = count_needing(&s1);
     let n2 = count_needing(&s2);
-    assert!(r1.unwrap() as usize == n1, "C05: per-file missing count");
+    assert!(r1.unwrap() as usize == n1, "C05/C06: per-file missing count");
     let total = CountMissingReferenceIdProcessor::reduce(&[r1.unwrap(), r2.unwrap()]);
     assert!(total.is_some());
-    assert!(total.unwrap() as usize == n1 + n2, "C05: total missing count");
+    assert!(total.unwrap() as usize == n1 + n2, "C05/C06: total missing count");
     kani::cover!(n1 + n2 == 2 * NENT, "all missing");
     kani::cover!(n1 + n2 == 0, "none missing");
     unsafe {
@@ -573,7 +576,7 @@ fn insert_body(faults: bool, symbolic_content: bool)
                     && fsm::T_ACC == fsm::EXPECT_LEN,
                     "C03/C13: edited file is the original bytes plus one token per missing statement, in place");
             }
-            assert!(r.num_inserted_references == need, "C05: reported count equals tokens inserted");
+            assert!(r.num_inserted_references == need, "C05/C06: reported count equals tokens inserted");
             assert!(NIDS == need, "C01/C13: one id per statement lacking a reference");
         }
         else
